@@ -703,6 +703,14 @@ def apply(func, args, kwargs=None):
             return args[1] if c != 0 else args[2]
         if isinstance(args[1], Rat) and isinstance(args[2], Rat) and args[1].key() == args[2].key():
             return args[1]
+        xa = x.as_atom()
+        if xa is not None and (xa.func in ("not", "and", "or", "in", "notin", "isnan", "isinf", "call:isinstance") or xa.func.startswith("cmp_")) \
+                and isinstance(args[1], Rat) and isinstance(args[2], Rat):
+            c1, c2 = args[1].const_value(), args[2].const_value()
+            if c1 == 1 and c2 == 0:
+                return x                     # a flag set to True / False under a boolean condition is that condition
+            if c1 == 0 and c2 == 1:
+                return apply("not", [x])
     if func == "not" and x is not None:
         c = x.const_value()
         if c is not None:
@@ -755,46 +763,74 @@ def subst(r, mapping):
     return n / d
 
 
-def map_atoms(r, fn):
+def map_atoms(r, fn, _memo=None):
     """Rebuild r with every atom a (top-down) replaced by fn(a) when that is not None; arguments of kept atoms are mapped
-    recursively and the rewrites of apply() are re-applied."""
+    recursively and the rewrites of apply() are re-applied.  Sub-terms in which nothing is replaced are returned as they are
+    (atoms are interned, so results are memoised per atom)."""
+    memo = _memo if _memo is not None else {}
+
     def m_arg(x):
         if isinstance(x, Rat):
-            return map_atoms(x, fn)
+            return m_rat(x)
         if isinstance(x, tuple):
-            return tuple(m_arg(y) for y in x)
-        return x
+            ys = [m_arg(y) for y in x]
+            ch = any(c for _, c in ys)
+            return (tuple(y for y, _ in ys), True) if ch else (x, False)
+        return x, False
 
     def m_atom(at):
+        hit = memo.get(at.id)
+        if hit is not None:
+            return hit
         rep = fn(at)
         if rep is not None:
-            return map_atoms(rep, fn) if rep.key() != Rat.of_atom(at).key() else rep
-        if at.func.startswith("$") or not at.args:
-            return Rat.of_atom(at)
-        if at.func == "ifexp" and len(at.args) == 3 and isinstance(at.args[0], Rat):
+            own = Rat.of_atom(at)
+            res = (m_rat(rep)[0], True) if rep.key() != own.key() else (rep, False)
+        elif at.func.startswith("$") or not at.args:
+            res = (Rat.of_atom(at), False)
+        elif at.func == "ifexp" and len(at.args) == 3 and isinstance(at.args[0], Rat):
             # lazily: a decided condition selects its branch, the other one (possibly undefined there) is not rebuilt
-            c = map_atoms(at.args[0], fn)
+            c, cc = m_rat(at.args[0])
             cv = c.const_value()
             if cv is not None:
-                return m_arg(at.args[1] if cv != 0 else at.args[2])
-            return apply("ifexp", [c, m_arg(at.args[1]), m_arg(at.args[2])])
-        args = [m_arg(x) for x in at.args]
-        if at.func == "base":
-            return Rat.of_atom(atom("base", (args[0],)))
-        pos = [a for a in args if not (isinstance(a, tuple) and a and isinstance(a[0], str) and a[0].startswith("kw:"))]
-        kws = {a[0][3:]: a[1] for a in args if isinstance(a, tuple) and a and isinstance(a[0], str) and a[0].startswith("kw:")}
-        return apply(at.func, pos, kws)
+                res = (m_arg(at.args[1] if cv != 0 else at.args[2])[0], True)
+            else:
+                a_, ca = m_arg(at.args[1])
+                b_, cb = m_arg(at.args[2])
+                res = (apply("ifexp", [c, a_, b_]), True) if (cc or ca or cb) else (Rat.of_atom(at), False)
+        else:
+            args = [m_arg(x) for x in at.args]
+            if not any(c for _, c in args):
+                res = (Rat.of_atom(at), False)
+            else:
+                vals = [a for a, _ in args]
+                if at.func == "base":
+                    res = (Rat.of_atom(atom("base", (vals[0],))), True)
+                else:
+                    pos = [a for a in vals if not (isinstance(a, tuple) and a and isinstance(a[0], str) and a[0].startswith("kw:"))]
+                    kws = {a[0][3:]: a[1] for a in vals if isinstance(a, tuple) and a and isinstance(a[0], str) and a[0].startswith("kw:")}
+                    res = (apply(at.func, pos, kws), True)
+        memo[at.id] = res
+        return res
 
     def m_poly(p):
+        changed = False
         total = Rat.const(0)
         for mono, c in p.items():
             term = Rat.const(c)
             for a, e in mono:
-                term = term * m_atom(_ATOMS[a]).pow(e)
+                v, ch = m_atom(_ATOMS[a])
+                changed = changed or ch
+                term = term * v.pow(e)
             total = total + term
-        return total
-    n = m_poly(r.num)
-    d = m_poly(r.den)
-    if d.is_zero():
-        raise Undefined("denominator vanishes under substitution")
-    return n / d
+        return total, changed
+
+    def m_rat(x):
+        n, cn_ = m_poly(x.num)
+        d, cd = m_poly(x.den)
+        if not (cn_ or cd):
+            return x, False
+        if d.is_zero():
+            raise Undefined("denominator vanishes under substitution")
+        return n / d, True
+    return m_rat(r)[0]
